@@ -448,6 +448,39 @@ pub fn clock_step_scenarios() -> Vec<Scn> {
     v
 }
 
+/// "Not re-evaluated while its entry lives": the entry of a rejected endpoint lives 30 s of REAL time (the table expires
+/// entries by `Instant`, which the injected clock does not move). After a rejected pair the harness really waits 120 ms and
+/// then sends two further segments at a plausible rate (under the injected clock): both must stay silent. Both roles,
+/// IPv4 and IPv6, one analyzer each, all waiting at the same time.
+fn marker_outlives_short_waits(r: &mut Report) {
+    let mut runs = vec![];
+    for v6 in [false, true] {
+        for (from_a, f0) in [(true, SYN), (false, SYN | ACK)] {
+            let s = Scn { v6, pa: 40000, pb: 80, unified: false, segs: vec![Seg { from_a, flags: f0, at_ms: T0, tsval: 9000 }, Seg { from_a, flags: ACK, at_ms: T0 + 1, tsval: 9001 }, Seg { from_a, flags: ACK, at_ms: T0 + 200, tsval: 9200 }, Seg { from_a, flags: ACK, at_ms: T0 + 1200, tsval: 10_200 }] };
+            let mut a = TcpSeq::new(None, 16);
+            let first: Vec<TcpRes> = s.segs[..2].iter().map(|g| {
+                set_clock(g.at_ms);
+                a.feed(&frame(&s, g))
+            }).collect();
+            runs.push((s, a, first));
+        }
+    }
+    std::thread::sleep(std::time::Duration::from_millis(120));
+    for (s, mut a, first) in runs {
+        r.exec(4);
+        let rest: Vec<TcpRes> = s.segs[2..].iter().map(|g| {
+            set_clock(g.at_ms);
+            a.feed(&frame(&s, g))
+        }).collect();
+        let all: Vec<&TcpRes> = first.iter().chain(rest.iter()).collect();
+        r.outcome(&("marker", all.iter().map(|g| g.client_uptime.is_some() || g.server_uptime.is_some()).collect::<Vec<_>>()));
+        if let Some(i) = all.iter().position(|g| g.client_uptime.is_some() || g.server_uptime.is_some()) {
+            r.dev("C19/re-evaluated-while-the-rejected-entry-should-live", "reported-outside-bounds-or-on-first-segment", || json!({"kind": "marker-lifetime", "scenario": s, "packet": i, "detail": "the pair 1 ms apart was rejected; 120 ms of real time later the endpoint is evaluated again although its entry lives 30 s"}));
+        }
+    }
+    huginn_net_tcp::uptime::verif_clock::clear_local();
+}
+
 pub fn run(thorough: bool) -> Outcome {
     let sc = scenarios(thorough);
     let report = par_slices(sc.len(), 256, |range| {
@@ -457,9 +490,11 @@ pub fn run(thorough: bool) -> Outcome {
         }
         r
     });
+    let mut report = report;
+    marker_outlives_short_waits(&mut report);
     Outcome {
         report,
-        rule: "histories of 2-4 timestamped segments under the injected clock: every integer rate 1..1500 Hz x intervals x 4 role routes x timestamp origin (incl. wrap through 2^32) x IPv4/IPv6; interval/rate boundaries with follow-up segments; port heuristic over {80,1024,1025,50000}^2; both directions interleaved; backward movement; wall clock stepping backwards or jumping between the segments (14 x 4 offsets, retransmitted SYN / SYN+ACK and data); every single-endpoint history also through calculate_uptime_improved + UptimeTracker (same bounds, grid and decomposition; silent after a rejected pair, frequency kept after an accepted one); distinct = distinct per-packet (client,server) frequency report vectors".into(),
+        rule: "histories of 2-4 timestamped segments under the injected clock: every integer rate 1..1500 Hz x intervals x 4 role routes x timestamp origin (incl. wrap through 2^32) x IPv4/IPv6; interval/rate boundaries with follow-up segments; port heuristic over {80,1024,1025,50000}^2; both directions interleaved; backward movement; a rejected endpoint stays silent after 120 ms of real waiting (its entry lives 30 s of real time; both roles, IPv4 / IPv6); wall clock stepping backwards or jumping between the segments (14 x 4 offsets, retransmitted SYN / SYN+ACK and data); every single-endpoint history also through calculate_uptime_improved + UptimeTracker (same bounds, grid and decomposition; silent after a rejected pair, frequency kept after an accepted one); distinct = distinct per-packet (client,server) frequency report vectors".into(),
         exhaustive: true,
         bounds: json!({"scenarios": sc.len(), "max_segments": 4}),
     }
@@ -467,6 +502,10 @@ pub fn run(thorough: bool) -> Outcome {
 
 pub fn replay(ex: &Value) -> Report {
     let mut r = Report::new();
+    if ex["kind"].as_str() == Some("marker-lifetime") {
+        marker_outlives_short_waits(&mut r);
+        return r;
+    }
     match serde_json::from_value::<Scn>(ex["scenario"].clone()) {
         Ok(s) => check(&mut r, &s),
         Err(_) => r.machinery_error("bad replay file"),
